@@ -49,7 +49,7 @@ class Contract:
     def __init__(self, qualname, params, returns=None, requires=(), ensures=(), raises=(),
                  modifies=(), trusted=False, inline=False, allocates=False, ghost=None,
                  hints=(), props=(), ensures_exc=None, note="", pure=False, assume_pre=(),
-                 entry_facts=(), checks_only=False):
+                 entry_facts=(), checks_only=False, ghost_modifies=(), ghost_ensures=()):
         self.qualname = qualname
         self.params = OrderedDict((k, parse_kind(v)) for k, v in params.items())
         self.returns = parse_kind(returns) if returns is not None else None
@@ -69,11 +69,15 @@ class Contract:
         self.assume_pre = _clauses(assume_pre, "assume")
         self.entry_facts = list(entry_facts)
         self.checks_only = checks_only
+        # ghost effects: part of the *definition* of a ghost log (e.g. "the sequence of calls of f"):
+        # applied at call sites, not checked against the body
+        self.ghost_modifies = list(ghost_modifies)
+        self.ghost_ensures = _clauses(ghost_ensures, "ghost")
 
 
 class LoopSpec:
     def __init__(self, qualname, ordinal, invariants=(), decreases=None, modifies=(),
-                 ghost=None, hints=(), havoc_locals=None):
+                 ghost=None, hints=(), havoc_locals=None, step=(), step_ret=()):
         self.qualname = qualname
         self.ordinal = ordinal
         self.invariants = _clauses(invariants, f"inv{ordinal}_")
@@ -82,6 +86,10 @@ class LoopSpec:
         self.ghost = OrderedDict((k, parse_kind(v)) for k, v in (ghost or {}).items())
         self.hints = list(hints)
         self.havoc_locals = havoc_locals
+        # step clauses: checked at the end of every iteration (back edge, break, return inside the loop);
+        # prev(e) is e evaluated at the start of that iteration
+        self.step = _clauses(step, f"step{ordinal}_")
+        self.step_ret = _clauses(step_ret, f"stepret{ordinal}_")     # only at `return` inside the loop
 
 
 class Registry:
